@@ -68,7 +68,9 @@ def build():
             I.write_field(env["self"].ref, "credit_units", value)
         emit(I, "set_machine_var", name=name, value=value)
         return NONE
-    R = "machine-variable store (mpf/core/machine_vars.py): set then get returns the value set; persistence is C15"
+    R = ("client view of the machine-variable store (mpf/core/machine_vars.py): get returns the value last set, None for "
+         "an unknown variable - the contracts of set_machine_var ('the value is stored') and get_machine_var proved on "
+         "the real code under C15 and re-checked in this run as C20m; persistence is C15")
     C.ext("MachineVariables.get_machine_var", model=mv_get, trusted_reason=R)
     C.ext("MachineVariables.set_machine_var", model=mv_set, trusted_reason=R)
     C.ext("MachineVariables.configure_machine_var", model=common.noop, trusted_reason=R)
@@ -634,4 +636,13 @@ def build_extra():
     c03.pid = "C20s"
     c03.replay_pid = "C03"
     c03.only_verify = ["SwitchController.process_switch_obj"]
-    return [c06, setup_set(), c16, c01, c03]
+    # the credit balance IS the machine variable credit_units: the map behaviour the store model above assumes (get returns
+    # what set stored, None for an unknown variable; set keeps the persist flag / expiry that enable_credit_play
+    # configured) is C15's contract on the real set / get / configure_machine_var, restricted
+    from . import C15
+    c15 = C15.build()
+    c15.pid = "C20m"
+    c15.replay_pid = "C15"
+    c15.only_verify = ["MachineVariables.get_machine_var", "MachineVariables.set_machine_var",
+                       "MachineVariables.configure_machine_var"]
+    return [c06, setup_set(), c16, c01, c03, c15]
